@@ -1,18 +1,179 @@
 import BppModel.VecTools
 import BppProofs.Lemmas.ScalarReal
 import Mathlib.Algebra.BigOperators.Group.List.Basic
+import Mathlib.Algebra.Order.BigOperators.Group.List
+import Mathlib.Tactic.Ring
+import Mathlib.Tactic.Linarith
+import Mathlib.Tactic.FieldSimp
 /-!
 Helper lemmas for C07 (model `BppModel/VecTools.lean` read at `ℝ`).
 -/
 namespace Bpp.VecTools
 open Bpp Bpp.ScalarReal
 
+/-! ### sums and products -/
+
 theorem foldl_add_eq (l : List ℝ) (a : ℝ) : l.foldl (· + ·) a = a + l.sum := by
   induction l generalizing a with
   | nil => simp
   | cons x xs ih => simp [List.foldl_cons, ih, add_assoc]
 
+theorem foldl_mul_eq (l : List ℝ) (a : ℝ) : l.foldl (· * ·) a = a * l.prod := by
+  induction l generalizing a with
+  | nil => simp
+  | cons x xs ih => simp [List.foldl_cons, ih, mul_assoc]
+
 theorem sum_eq (v : List ℝ) : VecTools.sum v = v.sum := by
   simp [VecTools.sum, foldl_add_eq]
+
+theorem prod_eq (v : List ℝ) : VecTools.prod v = v.prod := by
+  simp [VecTools.prod, foldl_mul_eq]
+
+@[simp] theorem specSum_eq (v : List ℝ) : Spec.sum v = v.sum := by
+  induction v with
+  | nil => simp [Spec.sum]
+  | cons x xs ih => simp only [Spec.sum, List.foldr_cons, List.sum_cons] at *; rw [ih]
+
+@[simp] theorem specProd_eq (v : List ℝ) : Spec.prod v = v.prod := by
+  induction v with
+  | nil => simp [Spec.prod]
+  | cons x xs ih => simp only [Spec.prod, List.foldr_cons, List.prod_cons] at *; rw [ih]
+
+theorem cumSumAux_length (acc : ℝ) (v : List ℝ) : (cumSumAux acc v).length = v.length := by
+  induction v generalizing acc with
+  | nil => rfl
+  | cons x xs ih => simp [cumSumAux, ih]
+
+theorem cumSumAux_get (acc : ℝ) (v : List ℝ) (i : Nat) (h : i < v.length) :
+    (cumSumAux acc v)[i]? = some (acc + (v.take (i + 1)).sum) := by
+  induction v generalizing acc i with
+  | nil => simp at h
+  | cons x xs ih =>
+    cases i with
+    | zero => simp [cumSumAux]
+    | succ j =>
+      have hj : j < xs.length := by simpa using h
+      simp only [cumSumAux, List.getElem?_cons_succ, List.take_succ_cons, List.sum_cons]
+      rw [ih (acc + x) j hj]; congr 1; ring
+
+theorem cumProdAux_length (acc : ℝ) (v : List ℝ) : (cumProdAux acc v).length = v.length := by
+  induction v generalizing acc with
+  | nil => rfl
+  | cons x xs ih => simp [cumProdAux, ih]
+
+theorem cumProdAux_get (acc : ℝ) (v : List ℝ) (i : Nat) (h : i < v.length) :
+    (cumProdAux acc v)[i]? = some (acc * (v.take (i + 1)).prod) := by
+  induction v generalizing acc i with
+  | nil => simp at h
+  | cons x xs ih =>
+    cases i with
+    | zero => simp [cumProdAux, mul_comm]
+    | succ j =>
+      have hj : j < xs.length := by simpa using h
+      simp only [cumProdAux, List.getElem?_cons_succ, List.take_succ_cons, List.prod_cons]
+      rw [ih (x * acc) j hj]; congr 1; ring
+
+/-! ### scalar products, means, covariance -/
+
+theorem scalar_eq (v1 v2 : List ℝ) (h : v1.length = v2.length) :
+    scalar v1 v2 = .ok (List.zipWith (· * ·) v1 v2).sum := by
+  simp [scalar, h, foldl_add_eq]
+
+theorem scalar_mismatch (v1 v2 : List ℝ) (h : v1.length ≠ v2.length) :
+    scalar v1 v2 = .error .dimension := by
+  simp [scalar, h]
+
+@[simp] theorem specDot_eq (a b : List ℝ) : Spec.dot a b = (List.zipWith (· * ·) a b).sum := by
+  simp [Spec.dot]
+
+theorem mean_eq (v : List ℝ) : mean v = v.sum / (v.length : ℝ) := by
+  simp [mean, sum_eq]
+
+@[simp] theorem specMean_eq (v : List ℝ) : Spec.mean v = v.sum / (v.length : ℝ) := by
+  simp [Spec.mean]
+
+theorem center_eq (v : List ℝ) : center v = v.map (· - v.sum / (v.length : ℝ)) := by
+  simp [center, mean_eq]
+
+theorem specCov_eq (a b : List ℝ) (u : Bool) :
+    Spec.cov a b u = (List.zipWith (fun x y => (x - a.sum / (a.length : ℝ)) * (y - b.sum / (b.length : ℝ))) a b).sum /
+      (if u then (a.length : ℝ) - 1 else (a.length : ℝ)) := by
+  unfold Spec.cov; cases u <;> simp
+
+theorem zipWith_mul_comm (a b : List ℝ) : List.zipWith (· * ·) a b = List.zipWith (· * ·) b a := by
+  induction a generalizing b with
+  | nil => simp
+  | cons x xs ih => cases b with
+    | nil => simp
+    | cons y ys => simp [ih ys, mul_comm]
+
+/-- Σ (aᵢ - c) = Σ aᵢ - n·c -/
+theorem sum_map_sub_const (a : List ℝ) (c : ℝ) : (a.map (· - c)).sum = a.sum - a.length * c := by
+  induction a with
+  | nil => simp
+  | cons x xs ih => simp [ih]; ring
+
+theorem zipWith_mul_map_div (v w : List ℝ) (s : ℝ) :
+    (List.zipWith (· * ·) v (w.map (· / s))).sum = (List.zipWith (· * ·) v w).sum / s := by
+  induction v generalizing w with
+  | nil => simp
+  | cons x xs ih => cases w with
+    | nil => simp
+    | cons y ys =>
+      simp only [List.map_cons, List.zipWith_cons_cons, List.sum_cons, ih ys]
+      ring
+
+theorem meanW_eq (v w : List ℝ) (h : v.length = w.length) :
+    meanW v w true = .ok ((List.zipWith (· * ·) v w).sum / w.sum) := by
+  have hl : v.length = (divC w (VecTools.sum w)).length := by simp [divC, h]
+  rw [meanW, if_pos rfl, scalar_eq _ _ hl, sum_eq, divC]
+  rw [← zipWith_mul_map_div]
+
+theorem scalar_center (v1 v2 : List ℝ) (h : v1.length = v2.length) :
+    scalar (center v1) (center v2) = .ok (List.zipWith (fun x y => (x - v1.sum / (v1.length : ℝ)) * (y - v2.sum / (v2.length : ℝ))) v1 v2).sum := by
+  have hl : (center v1).length = (center v2).length := by simp [center, h]
+  rw [scalar_eq _ _ hl, center_eq, center_eq, List.zipWith_map]
+
+theorem cov_eq (v1 v2 : List ℝ) (u : Bool) (h : v1.length = v2.length)
+    (hn : (if u then 2 else 1) ≤ v1.length) : cov v1 v2 u = .ok (Spec.cov v1 v2 u) := by
+  have hn0 : (v1.length : ℝ) ≠ 0 := by
+    have : 1 ≤ v1.length := by split at hn <;> omega
+    exact_mod_cast (by omega : v1.length ≠ 0)
+  rw [cov, scalar_center v1 v2 h, specCov_eq]
+  simp only [bind, Except.bind, pure, Except.pure, ofInt_eq, one_eq, Int.cast_natCast]
+  cases u with
+  | false => simp
+  | true =>
+    simp only [if_true]
+    have hn1 : (v1.length : ℝ) - 1 ≠ 0 := by
+      have : (2:ℝ) ≤ (v1.length : ℝ) := by exact_mod_cast hn
+      linarith
+    have key : ∀ S : ℝ, S / (v1.length : ℝ) * (v1.length : ℝ) / ((v1.length : ℝ) - 1) = S / ((v1.length : ℝ) - 1) := by
+      intro S; field_simp
+    rw [key]
+
+theorem cov_mismatch (v1 v2 : List ℝ) (u : Bool) (h : v1.length ≠ v2.length) :
+    cov v1 v2 u = .error .dimension := by
+  have hl : (center v1).length ≠ (center v2).length := by simp [center, h]
+  rw [cov, scalar_mismatch _ _ hl]; rfl
+
+theorem zipWith_comm_of {f : ℝ → ℝ → ℝ} {g : ℝ → ℝ → ℝ} (hfg : ∀ x y, f x y = g y x) (a b : List ℝ) :
+    List.zipWith f a b = List.zipWith g b a := by
+  induction a generalizing b with
+  | nil => simp
+  | cons x xs ih => cases b with
+    | nil => simp
+    | cons y ys => simp [ih ys, hfg]
+
+theorem sum_zipWith_sq_nonneg (a : List ℝ) (c : ℝ) :
+    0 ≤ (List.zipWith (fun x y => (x - c) * (y - c)) a a).sum := by
+  induction a with
+  | nil => simp
+  | cons x xs ih => simp only [List.zipWith_cons_cons, List.sum_cons]; nlinarith [mul_self_nonneg (x - c)]
+
+theorem specCov_symm (a b : List ℝ) (u : Bool) (h : a.length = b.length) : Spec.cov a b u = Spec.cov b a u := by
+  rw [specCov_eq, specCov_eq]
+  have hd : (a.length : ℝ) = (b.length : ℝ) := by rw [h]
+  rw [zipWith_comm_of (g := fun x y => (x - b.sum / (b.length : ℝ)) * (y - a.sum / (a.length : ℝ))) (by intro x y; ring) a b, hd]
 
 end Bpp.VecTools
